@@ -31,6 +31,7 @@ from . import core
 from .core import natlit, zlit, listlit, boollit, optlit
 from . import jugrun
 from . import fakeredis
+from . import patching
 
 import jug
 import jug.jug
@@ -1584,7 +1585,8 @@ def patched(rt):
             _tl.task = None
 
     Task.store = ProxyStore(rt)
-    time.sleep = sleep
+    sleep_patch = patching.patch_everywhere(old_sleep, sleep, home=time, name='sleep')     # also where jug did `from time import sleep`
+    sleep_patch.__enter__()
     Task.run = run
     _direct_call = rt.call
     _active_rt = rt
@@ -1598,7 +1600,7 @@ def patched(rt):
         _direct_call = None
         _active_rt = None
         Task.run = old_run
-        time.sleep = old_sleep
+        sleep_patch.__exit__(None, None, None)
         Task.store = old_store
         jug.hooks.register._hooks.clear()
         jug.hooks.register._hooks.update(old_hooks)
@@ -2133,6 +2135,27 @@ def scenario_with_decisions(sc, res):
     return sc2
 
 
+RARE_KINDS = ('sleep', 'pickle', 'load')       # scheduling-point kinds that a strided enumeration must not skip
+WAIT_KEY = 'runs in which a worker sat in the wait loop (sleep scheduling point)'
+DUMP_KEY = 'runs with a scheduling point inside store.dump()'
+
+
+def require_coverage(ck, keys, what):
+    """a scheduling-point kind / instant that the check is ABOUT and that no run of this tier reached is a broken check, not a pass
+    (e.g. jug holding `sleep` under a name the harness does not patch would silently remove every wait-loop instant)"""
+    for k in keys:
+        if not ck.dist.get(k):
+            ck.broken.append('coverage lost: %s - no run reached %r' % (what, k))
+
+
+def count_points(ck, res):
+    kinds = set(k for ks in res.kinds.values() for k in ks)
+    if 'sleep' in kinds:
+        ck.count(WAIT_KEY)
+    if 'pickle' in kinds:
+        ck.count(DUMP_KEY)
+
+
 class Batch:
     """collects runs of one check, evaluates the Coq side in shards, reports violations"""
 
@@ -2168,6 +2191,7 @@ class Batch:
         ck.count('workers:%d' % sum(len(ph['workers']) for ph in sc['phases']))
         ck.count('tasks:%d' % res.ntasks)
         ck.count('events', len(res.trace))
+        count_points(ck, res)
         ck.distinct((sc['program'], res.decisions, sc.get('backend')), len(res.trace) > 4)
         return res
 
